@@ -22,10 +22,10 @@ W = dict(case_twin=0.07, dual_fwd=0.25, fwd=0.5, nick=0.55, ref=0.32, zero_count
 DIRECTED = [S.stream_dual_forward_underfilled, S.stream_history_rows_hold_once_refs, S.stream_late_forward_reference, S.stream_stale_slot, S.stream_idle_middle, S.stream_shared_nick_forward, S.stream_once_cluster, S.stream_randref_nicks, S.stream_nick_spelled_like_table, S.stream_captured_slot]
 
 
-def gen_case(rng):
+def gen_case(rng, stream=None):
     from .c04 import row_valued_in_once
-    if rng.random() < 0.12:      # directed streams (DESIGN.md 11.4)
-        r, feats = rng.choice(DIRECTED)(rng)
+    if stream is not None or rng.random() < 0.12:      # directed streams (DESIGN.md 11.4)
+        r, feats = (stream or rng.choice(DIRECTED))(rng)
         k = rng.choice([2, 3, 4, 4])
         # (a just_once row holding a reference cannot be written to a continuation file: K1/K2 of C04/C05)
         cut = rng.random() < 0.8 and not row_valued_in_once(r)
@@ -42,8 +42,15 @@ def gen_case(rng):
 
 
 def generate(rng, tier):
+    import random
     n = 380 if tier == "quick" else 10000
-    return [gen_case(rng) for _ in range(n)]
+    cases = [gen_case(rng) for _ in range(n)]
+    # a fixed share per directed stream (own rng; see harness/c02.py generate)
+    rng2 = random.Random(rng.getrandbits(48) ^ 0xC01)
+    for stream in sorted(set(DIRECTED), key=lambda f: f.__name__):
+        for _ in range(8 if tier == "quick" else 100):
+            cases.append(gen_case(rng2, stream))
+    return cases
 
 
 def run_impl(case):
